@@ -614,3 +614,62 @@ func VerifH_C12_timedHardTimeout() {
 	poll()
 	vpAssert(got == 1, "every-batch-gets-exactly-one-verdict")
 }
+
+// VerifH_C12_stopDuringHandler: the real dispatcher and worker; Stop is
+// called while a request's response handler is still running and the
+// handler returns only after the dispatcher has gone.  Whatever the handler
+// then reports (finished, progress only, nothing), Stop must return - the
+// worker may not wait for somebody to take its result - and the batch gets
+// at most one verdict.
+func VerifH_C12_stopDuringHandler() {
+	vpOpt("clock", 1)
+	vpOpt("timed", 1)
+	vpOpt("timers", 16)
+	vpForceFinish = false
+	peerChan := make(chan Peer, 4)
+	wm := NewWorkManager(&Config{
+		ConnectedPeers: func() (<-chan Peer, func(), error) { return peerChan, func() {}, nil },
+		NewWorker:      NewWorker,
+		Ranking:        NewPeerRanking(),
+	})
+	wm.Start()
+	p := &vpPeer{addr: "a", msgs: make(chan wire.Message, 8), disconnect: make(chan struct{})}
+	peerChan <- p
+	vpQuiesce()
+
+	stopDone := make(chan struct{})
+	stopStarted := false
+	kind := vpRange("handlerVerdict", 0, 2)
+	req := &Request{Req: wire.NewMsgPing(1), HandleResp: func(req, resp wire.Message, peer string) Progress {
+		if !stopStarted {
+			stopStarted = true
+			go func() {
+				wm.Stop()
+				close(stopDone)
+			}()
+			vpQuiesce() // the dispatcher has seen the shutdown and gone
+			vpReach("stop-called-inside-a-response-handler")
+		}
+		return Progress{Finished: kind == 0, Progressed: kind <= 1}
+	}}
+	errChan := wm.Query([]*Request{req}, Timeout(time.Hour), NoRetryMax())
+	vpQuiesce()
+	p.msgs <- wire.NewMsgPong(1)
+	vpQuiesce()
+	if !stopStarted {
+		return
+	}
+	<-stopDone // a Stop that never returns shows up as a deadlock
+	vpReach("stopped")
+	got := 0
+	for {
+		select {
+		case <-errChan:
+			got++
+			continue
+		default:
+		}
+		break
+	}
+	vpAssert(got <= 1, "every-batch-gets-at-most-one-verdict-at-shutdown")
+}
